@@ -133,6 +133,8 @@ structure Out where
   stdout : Str := []
   /-- error classes, in the order the messages are printed -/
   errs : List String := []
+  /-- `Break(Divert::Interrupt(Some(status)))` -/
+  divert : Option Nat := none
   deriving Repr
 
 /-- `ExitStatus::from(ProcessResult)` -/
@@ -291,8 +293,12 @@ def fgResume (s : JobList) (index : Nat) (outcome : PState) : Except String (Str
       else
         (.ok (line, job.state), (s.remove index).2)
 
-/-- `fg::main` in a non-interactive shell -/
-def fgBuiltin (s : JobList) (monitor : Bool) (outcome : PState) (args : List Str) : Out × JobList :=
+/-- `fg::should_interrupt` (no `SIGINT` trap is set: `sigint_has_default_action()`) -/
+def shouldInterrupt (inter : Bool) (result : PState) : Bool :=
+  inter && (result.isStopped || (match result with | .signaled sg _ => sg == 2 | _ => false))
+
+/-- `fg::main`; `inter` = the shell is interactive; the exit status on entry is 0 -/
+def fgBuiltin (s : JobList) (monitor inter : Bool) (outcome : PState) (args : List Str) : Out × JobList :=
   match parseArgs [] args with
   | none => ({ status := 2, errs := ["unkopt"] }, s)
   | some (_, operands) =>
@@ -310,7 +316,9 @@ def fgBuiltin (s : JobList) (monitor : Bool) (outcome : PState) (args : List Str
       | .error e => ({ status := 1, errs := [e] }, s)
       | .ok index =>
         match fgResume s index outcome with
-        | (.ok (line, result), s') => ({ status := result.exitStatus, stdout := line }, s')
+        | (.ok (line, result), s') =>
+          (if shouldInterrupt inter result then { status := 0, stdout := line, divert := some result.exitStatus }
+           else { status := result.exitStatus, stdout := line }, s')
         | (.error e, s') => ({ status := 1, errs := [e] }, s')
 
 /-! ### `wait` -/
@@ -426,6 +434,44 @@ def ampersand (s : JobList) (pid : Nat) (monitor interactive : Bool) (name : Str
   ({ status := 0,
      errs := if interactive then ["async:" ++ toString (r.1 + 1) ++ ":" ++ toString pid] else [] }, s')
 
+/-- the `Err(errno)` branch of `execute_async`: the subshell cannot be started; nothing is inserted,
+    the result is `Break(Divert::Interrupt(Some(ExitStatus::NOEXEC)))` -/
+def ampersandFail (s : JobList) : Out × JobList :=
+  ({ status := 0, errs := ["nofork"], divert := some 126 }, s)
+
+/-! ### `handle_job_status` (`job.rs`): a foreground job that was suspended becomes a job -/
+
+/-- `handle_job_status(env, pid, result, || name)`; `result` is a `ProcessResult` (never `running`).
+    Returns `(interrupted, exit status)`: `Break(Divert::Interrupt(Some st))` or `Continue(st)`.
+    No `SIGINT` trap is set (`sigint_has_default_action()`). -/
+def handleJobStatus (s : JobList) (pid : Nat) (result : PState) (inter : Bool) (name : Str) :
+    (Bool × Nat) × JobList :=
+  if result.isStopped then
+    ((inter, result.exitStatus), (s.insert { pid := pid, state := result, jc := true, name := name }).2)
+  else
+    ((inter && (match result with | .signaled sg _ => sg == 2 | _ => false), result.exitStatus), s)
+
+/-! ### `jobs` when standard output cannot be written -/
+
+/-- `jobs::main` with standard output closed: everything up to `output(env, &accumulator.print)` is
+    the same; writing a non-empty report fails, the failure is reported (exit status 1) and the
+    final loop is skipped ("only if there was no error") -/
+def jobsClosed (s : JobList) (args : List Str) : Out × JobList :=
+  if (jobsBuiltin s args).1.status = 0 ∧ (jobsBuiltin s args).1.stdout ≠ [] then
+    ({ status := 1, errs := ["stdout"] }, s)
+  else jobsBuiltin s args
+
+/-! ### `iter_mut().next_back()` -/
+
+/-- `state_reported()` on the job `iter_mut().next_back()` yields -/
+def JobList.reportLast (s : JobList) : JobList :=
+  match lastOccupied s.entries with
+  | none => s
+  | some i =>
+    match gets s.entries i with
+    | none => s
+    | some j => { s with entries := s.entries.set i (some { j with changed := false }) }
+
 /-! ### Operations as data, for histories -/
 
 inductive Op where
@@ -444,10 +490,15 @@ inductive Op where
   -- the built-ins and the asynchronous command
   | jobs (args : List Str)
   | bg (monitor : Bool) (args : List Str)
-  | fg (monitor : Bool) (outcome : PState) (args : List Str)
+  | fg (monitor inter : Bool) (outcome : PState) (args : List Str)
   | wait (args : List Str)
   | wres (arg : Str)
   | amp (pid : Nat) (monitor interactive : Bool) (name : Str)
+  -- round 3
+  | hjs (pid : Nat) (result : PState) (inter : Bool) (name : Str)
+  | jobsClosed (args : List Str)
+  | ampFail
+  | reportLast
   deriving Repr
 
 def step (s : JobList) : Op → JobList
@@ -464,10 +515,14 @@ def step (s : JobList) : Op → JobList
   | .insertJob pid st jc name => (s.insert { pid := pid, state := st, jc := jc, name := name }).2
   | .jobs args => (jobsBuiltin s args).2
   | .bg m args => (bgBuiltin s m args).2
-  | .fg m out args => (fgBuiltin s m out args).2
+  | .fg m i out args => (fgBuiltin s m i out args).2
   | .wait args => (waitBuiltin s args).2
   | .wres _ => s
   | .amp pid m i name => (ampersand s pid m i name).2
+  | .hjs pid r i name => (handleJobStatus s pid r i name).2
+  | .jobsClosed args => (jobsClosed s args).2
+  | .ampFail => s
+  | .reportLast => s.reportLast
 
 def run (s : JobList) (ops : List Op) : JobList := ops.foldl step s
 
